@@ -7,7 +7,7 @@ CONSTANTS
   DropDelete = TRUE
   TestRng = FALSE
 SPECIFICATION Spec
-INVARIANT Inv_Consumed
 INVARIANT Inv_SignsOnce
+INVARIANT Inv_Consumed
 VIEW View
 CHECK_DEADLOCK FALSE
